@@ -43,6 +43,7 @@ func runC13(c *Ctx) {
 	c13ValidateBeforeSkip(c)
 	c13ViewWrapsArgument(c)
 	c13PathPrefixByString(c)
+	c13ListValidatorTotal(c)
 	c13NormalizeAlwaysCleans(c)
 	c13ViewRootRefused(c)
 	c14DiskValidateFirst(c)
